@@ -160,7 +160,7 @@ class BuiltinMixin:
 
     def iterable(self, v, path):
         """normalise things one can iterate over"""
-        if isinstance(v, (VList, VTuple, VSeq, VHeapList, VDict)):
+        if isinstance(v, (VList, VTuple, VSeq, VHeapList, VDict, VRange)):
             return v
         if isinstance(v, VStr):
             try:
@@ -696,6 +696,8 @@ class BuiltinMixin:
             return VInt(r)
         if name in ('max', 'min') and len(args) == 1:
             return self.minmax_val(name, args[0], path, ln, kwargs.get('default'))
+        if name == 'range' and len(args) == 1:
+            return VRange(self.coerce(args[0], INT).t)
         raise OutOfReach(f'builtin {name} (line {ln})')
 
     def uf(self, name, doms, rng):
